@@ -148,6 +148,7 @@ def run(ctx):
              "expects a C string; only length-bounded consumers", floor=3)
     nfield = 0
     for file, fn in funcs:
+        aliases = _field_aliases(fn)
         for n in C.walk(fn):
             if n.get("kind") != "CallExpr":
                 continue
@@ -155,6 +156,11 @@ def run(ctx):
             args = C.call_args(n)
             for i, a in enumerate(args):
                 core = C.strip_all(a)
+                alias = None
+                if core.get("kind") == "DeclRefExpr" and \
+                        (core.get("referencedDecl") or {}).get("name") in aliases:
+                    alias = (core.get("referencedDecl") or {}).get("name")
+                    core = aliases[alias]
                 if core.get("kind") != "MemberExpr":
                     continue
                 mt = C.qtype(core)
@@ -168,8 +174,24 @@ def run(ctx):
                 nfield += 1
                 key = f"{fn['name']}:{cn}:{mname}"
                 width = int(re.findall(r"\d+", mt)[0])
+                if alias is not None and not (cn in NUL_CONSUMERS and i in NUL_CONSUMERS[cn]):
+                    # through a pointer the width is lost: only an explicit bound
+                    # naming the member itself is accepted
+                    if any((_sizeof_target(x) or ("", 1))[0] == mname
+                           and (_sizeof_target(x) or ("", 1))[1] <= 0
+                           for j, x in enumerate(args) if j != i):
+                        ctx.ok("C17.R2", key + f":via:{alias}",
+                               sample=f"{cn}({alias} -> {mname}, sizeof({mname}))")
+                    else:
+                        ctx.fail("C17.R2", key + f":via:{alias}", fn["_file"], n["_line"],
+                                 fn["name"], f"`{alias}` may point at {rec}.{mname} (fixed "
+                                 f"width, maybe unterminated) and is passed to `{cn}` without "
+                                 f"a sizeof({mname}) bound")
+                    continue
                 if cn in NUL_CONSUMERS and i in NUL_CONSUMERS[cn]:
-                    ctx.fail("C17.R2", key, fn["_file"], n["_line"], fn["name"],
+                    ctx.fail("C17.R2", key + (f":via:{alias}" if alias else ""), fn["_file"],
+                             n["_line"], fn["name"],
+                             (f"`{alias}` may point at {rec}.{mname}; " if alias else "") +
                              f"`{cn}({rec}.{mname})`: {mname} is a fixed-width char[{width}] "
                              f"field that is NOT NUL-terminated when full; {cn} reads on "
                              f"into the following fields (wrong string, potential "
@@ -250,13 +272,19 @@ def run(ctx):
                 key = f"{fn['name']}:{n.get('opcode')}:{var}"
                 if "unsigned" in t:
                     ctx.ok("C17.R4", key, sample=f"unsigned {n.get('opcode')}")
-                elif _range_guarded(fn, n, var):
-                    ctx.ok("C17.R4", key, sample=f"{var} {n.get('opcode')} under a range guard")
                 else:
-                    ctx.fail("C17.R4", key, fn["_file"], n["_line"], fn["name"],
-                             f"signed `{var} {n.get('opcode')} ...` ({t}) on a value parsed from "
-                             f"the caller's argument with no range check: signed overflow "
-                             f"(undefined behaviour) for large arguments")
+                    okr, (lo_, hi_) = _range_guarded(fn, n, var)
+                    if okr:
+                        ctx.ok("C17.R4", key, sample=f"{var} in [{lo_}, {hi_}] before the "
+                               f"signed {n.get('opcode')}")
+                    else:
+                        ctx.fail("C17.R4", key, fn["_file"], n["_line"], fn["name"],
+                                 f"signed `{var} {n.get('opcode')} ...` ({t}) on a value parsed "
+                                 f"from the caller's argument; the exiting range checks before "
+                                 f"it leave {var} in [{'-inf' if lo_ is None else lo_}, "
+                                 f"{'+inf' if hi_ is None else hi_}]: signed overflow (undefined "
+                                 f"behaviour; in practice the high bits wrap into a value the "
+                                 f"kernel accepts) for arguments outside the encodable range")
 
     # ------------------------------------------------------------------- R5/R6
     ctx.rule("C17.R6", "resource typestate: setmntent/endmntent, socket/close, "
@@ -280,6 +308,39 @@ def run(ctx):
             "signed arithmetic on parsed integers, acquire/release typestate on a "
             "per-function CFG, and C tuple <-> Python unpack <-> named-tuple agreement.",
             "typed-AST queries over clang's IR (taint, typestate, format/type agreement)")
+
+
+def _field_aliases(fn):
+    """pointer variables that may hold the address of a fixed-width record
+    field: {var: MemberExpr} (flow-insensitive may-alias)."""
+    out = {}
+
+    def member_of(e):
+        core = C.strip_all(e)
+        if core.get("kind") == "UnaryOperator" and core.get("opcode") == "&":
+            core = C.strip_all(C.kids(core)[0])
+            if core.get("kind") == "ArraySubscriptExpr":
+                core = C.strip_all(C.kids(core)[0])
+        if core.get("kind") == "ConditionalOperator":
+            for k in C.kids(core)[1:]:
+                m = member_of(k)
+                if m is not None:
+                    return m
+        if core.get("kind") == "MemberExpr" and re.match(r"^char\[\d+\]$", C.qtype(core)):
+            return core
+        return None
+    for n in C.walk(fn):
+        if n.get("kind") == "VarDecl" and C.kids(n):
+            m = member_of(C.kids(n)[-1])
+            if m is not None:
+                out[n.get("name")] = m
+        elif n.get("kind") == "BinaryOperator" and n.get("opcode") == "=":
+            l, r = C.kids(n)
+            ln = (C.strip_all(l).get("referencedDecl") or {}).get("name")
+            m = member_of(r)
+            if ln and m is not None:
+                out[ln] = m
+    return out
 
 
 def kids_type(member):
@@ -481,19 +542,86 @@ def _derived(fn, parsed):
     return set()
 
 
-def _range_guarded(fn, node, var):
-    """Is there an IfStmt comparing var against a constant/limit that returns,
-    lexically before `node`?"""
-    target_line = node.get("_line", 0)
+def _interval(fn, node, var):
+    """[lo, hi] that the exiting range checks lexically before `node` leave for
+    `var` on the fall-through path.  A check is an IfStmt whose then-branch
+    leaves the function (return / goto) and whose condition is a disjunction of
+    comparisons: on the fall-through every disjunct is false."""
+    lo = hi = None
+    target = node.get("_ord", 0)
+
+    def atoms(c):
+        c = C.strip(c)
+        if c.get("kind") == "BinaryOperator" and c.get("opcode") == "||":
+            for k in C.kids(c):
+                yield from atoms(k)
+        else:
+            yield c
     for n in C.walk(fn):
-        if n.get("kind") == "IfStmt" and n.get("_line", 0) <= target_line:
-            cond = C.kids(n)[0]
-            names = {(x.get("referencedDecl") or {}).get("name") for x in C.walk(cond)}
-            if var in names and any(x.get("kind") == "BinaryOperator" and x.get("opcode") in
-                                    ("<", ">", "<=", ">=") for x in C.walk(cond)):
-                if any(x.get("kind") in ("ReturnStmt", "GotoStmt") for x in C.walk(n)):
-                    return True
+        if n.get("kind") != "IfStmt" or n.get("_ord", 0) >= target:
+            continue
+        ks = C.kids(n)
+        if len(ks) < 2 or not _always_exits(ks[1]):
+            continue
+        for a in atoms(ks[0]):
+            if a.get("kind") != "BinaryOperator" or a.get("opcode") not in ("<", ">", "<=", ">="):
+                continue
+            l, r = C.kids(a)
+            ln = (C.strip_all(l).get("referencedDecl") or {}).get("name")
+            rn = (C.strip_all(r).get("referencedDecl") or {}).get("name")
+            op = a.get("opcode")
+            if ln == var and C.int_value(r) is not None:
+                c = C.int_value(r)
+            elif rn == var and C.int_value(l) is not None:
+                c = C.int_value(l)
+                op = {"<": ">", ">": "<", "<=": ">=", ">=": "<="}[op]
+            else:
+                continue
+            # the atom `var op c` is FALSE on the fall-through
+            if op == "<":
+                lo = c if lo is None else max(lo, c)
+            elif op == "<=":
+                lo = c + 1 if lo is None else max(lo, c + 1)
+            elif op == ">":
+                hi = c if hi is None else min(hi, c)
+            elif op == ">=":
+                hi = c - 1 if hi is None else min(hi, c - 1)
+    return lo, hi
+
+
+def _always_exits(st):
+    k = st.get("kind")
+    if k in ("ReturnStmt", "GotoStmt"):
+        return True
+    if k == "CompoundStmt":
+        ks = C.kids(st)
+        return bool(ks) and _always_exits(ks[-1])
     return False
+
+
+def _range_guarded(fn, node, var):
+    """The operand's interval makes the signed operation overflow-free."""
+    lo, hi = _interval(fn, node, var)
+    if lo is None or hi is None:
+        return False, (lo, hi)
+    ops = C.kids(node)
+    other = [o for o in ops
+             if (C.strip_all(o).get("referencedDecl") or {}).get("name") != var]
+    k = C.int_value(other[0]) if other else None
+    big = max(abs(lo), abs(hi))
+    if node.get("opcode") == "<<":
+        if lo < 0 or k is None or k < 0 or k > 30:
+            return False, (lo, hi)
+        return (big << k) < 2 ** 31, (lo, hi)
+    if k is not None:
+        return big * abs(k) < 2 ** 31, (lo, hi)
+    # product with another variable: both factors need their own small range
+    on = (C.strip_all(other[0]).get("referencedDecl") or {}).get("name") if other else None
+    if on:
+        lo2, hi2 = _interval(fn, node, on)
+        if lo2 is not None and hi2 is not None:
+            return big * max(abs(lo2), abs(hi2)) < 2 ** 31, (lo, hi)
+    return False, (lo, hi)
 
 
 PAIRS = {"setmntent": "endmntent", "socket": "close", "getifaddrs": "freeifaddrs",
